@@ -8,8 +8,8 @@
 //     same algorithm as a state machine that takes the elements of every map iteration in an arbitrary
 //     order, ends in the declarative classification from every reachable terminal state (two names):
 //     the outcome does not depend on the order in which names are analysed.
-//  2. Binding G: TLC enumerates (PyScopeBFS, exhaustive; PyScopeLocset, the locals() case class)
-//     and samples (PyScopeDice, dice = seeded entropy from here) programs of PyScope.tla and prints,
+//  2. Binding G: TLC enumerates (PyScopeBFS, exhaustive; PyScopeFlags, one program per def-use flag
+//     configuration of a tree; PyScopeLocset, the locals() case class) and samples (PyScopeDice, dice = seeded entropy from here) programs of PyScope.tla and prints,
 //     per program, accept/reject, the classification and capture tables and the run-time log that
 //     the specification's dynamic semantics yields.  This harness renders each program, and compares
 //     by equality: py.Compile accept/reject (SyntaxError family), the REAL symtable package's scopes
@@ -64,9 +64,15 @@ type observed struct {
 // runProgram executes prologue, program and epilogue in one fresh context and returns the log.
 func runProgram(src string) observed {
 	c := pyrun.New()
-	defer c.Close()
+	timedOut := false
+	defer func() {
+		if !timedOut { // Close would wait for an abandoned execution for ever
+			c.Close()
+		}
+	}()
 	for i, unit := range []string{scope.Prologue, src, scope.Epilogue} {
-		r := c.Exec(unit, 20*time.Second)
+		r := c.Exec(unit, 120*time.Second)
+		timedOut = r.TimedOut
 		if r.Outcome() != "ok" {
 			o := r.Outcome()
 			if r.Panic != "" {
@@ -142,7 +148,7 @@ func check(line []byte, family string) {
 	names := nameList(&c)
 	detail := func(extra map[string]interface{}) map[string]interface{} {
 		d := map[string]interface{}{"family": family, "src": src, "program": c.P, "spec": map[string]interface{}{
-			"reject": c.Reject, "why": c.Why, "cls": c.Cls, "cap": c.Cap, "log": c.Log, "org": c.Org}}
+			"reject": c.Reject, "why": c.Why, "cls": c.Cls, "cap": c.Cap, "flags": c.Flags, "log": c.Log, "org": c.Org}}
 		for k, v := range extra {
 			d[k] = v
 		}
@@ -155,13 +161,13 @@ func check(line []byte, family string) {
 
 	// (1) accept / reject at compile time
 	var code *py.Code
-	cr := pyrun.Guard(20*time.Second, func() error {
+	cr := pyrun.Guard(120*time.Second, func() error {
 		var err error
 		code, err = py.Compile(src, "<verif>", py.ExecMode, 0, true)
 		return err
 	})
 	var blocks []scope.Block
-	sr := pyrun.Guard(20*time.Second, func() error {
+	sr := pyrun.Guard(120*time.Second, func() error {
 		var err error
 		blocks, err = scope.Symtable(src, names)
 		return err
@@ -186,9 +192,9 @@ func check(line []byte, family string) {
 		}
 		return
 	}
-	if cr.Outcome() != "ok" {
+	compiled := cr.Outcome() == "ok"
+	if !compiled { // reported; the symbol table is still compared (it says where the compiler was misled)
 		rep.Violation("C03|Accept|py.Compile|observed="+cr.Outcome(), detail(map[string]interface{}{"msg": cr.Msg, "panic": cr.Panic}))
-		return
 	}
 	if sr.Outcome() != "ok" {
 		rep.Violation("C03|Accept|symtable.NewSymTable|observed="+sr.Outcome(), detail(map[string]interface{}{"msg": sr.Msg, "panic": sr.Panic}))
@@ -225,6 +231,9 @@ func check(line []byte, family string) {
 		}
 	}
 
+	if !compiled {
+		return
+	}
 	// (2b) the compiler's slot tables: cellvars / freevars of every code object (pre-order of the
 	// nested code constants = textual order = the specification's scope ids)
 	var codes []*py.Code
@@ -374,6 +383,39 @@ func generate(module, cfg, family string, extra map[string]string, workers int) 
 	return res
 }
 
+// replay re-checks the one case recorded in a replay file (program + the specification's
+// expectations as TLC printed them) against the current tree.
+func replay() {
+	b, err := os.ReadFile(env.Replay)
+	if err != nil {
+		common.Inconclusive("property=C03 replay: %v", err)
+	}
+	var f struct {
+		Case struct {
+			Program []scope.Scope `json:"program"`
+			Spec    struct {
+				Reject bool                  `json:"reject"`
+				Why    string                `json:"why"`
+				Cls    []map[string]string   `json:"cls"`
+				Cap    []map[string]bool     `json:"cap"`
+				Flags  []map[string][]string `json:"flags"`
+				Log    []string              `json:"log"`
+				Org    []string              `json:"org"`
+			} `json:"spec"`
+		} `json:"case"`
+	}
+	if err := json.Unmarshal(b, &f); err != nil || len(f.Case.Program) == 0 {
+		common.Inconclusive("property=C03 replay file %s has no program: %v", env.Replay, err)
+	}
+	c := scope.Case{P: f.Case.Program, Reject: f.Case.Spec.Reject, Why: f.Case.Spec.Why, Cls: f.Case.Spec.Cls, Cap: f.Case.Spec.Cap,
+		Flags: f.Case.Spec.Flags, Log: f.Case.Spec.Log, Org: f.Case.Spec.Org, SpecOK: true}
+	line, _ := json.Marshal(c)
+	fmt.Print(scope.Render(c.P))
+	check(line, "replay")
+	rep.Evaluations = 1
+	rep.Finish()
+}
+
 func main() {
 	env = common.Setup()
 	rep = common.NewReport(env, "model_checking")
@@ -383,6 +425,10 @@ func main() {
 			dumpF = f
 			defer f.Close()
 		}
+	}
+	if env.Replay != "" {
+		replay()
+		return
 	}
 	tier := "quick"
 	if env.Thorough() {
@@ -418,9 +464,11 @@ func main() {
 	var gres []*common.TLCResult
 	gres = append(gres, generate("PyScopeLocset", "locset.cfg", "locset", nil, wGen))
 	gres = append(gres, generate("PyScopeBFS", "bfs_"+tier+".cfg", "bfs", nil, wGen))
-	shards, per := 1, 6000
+	gres = append(gres, generate("PyScopeFlags", "flags_"+tier+".cfg", "flags", nil, wGen))
+	shards, per := 1, 3500
 	if env.Thorough() {
-		shards, per = 8, 25000
+		gres = append(gres, generate("PyScopeFlags", "flags_thorough2.cfg", "flags", nil, wGen))
+		shards, per = 6, 25000
 	}
 	for s := 0; s < shards; s++ {
 		gres = append(gres, generate("PyScopeDice", "dice.cfg", "dice", map[string]string{"dice.ndjson": dice(rng, per)}, wGen))
